@@ -70,7 +70,7 @@ TRANSLATED = {
  "C02": "SparseVector::{split, combine, pos, lower_bound, upper_bound, select, get, rank, predecessor, successor, count_zeros} (bucket scans included), find_zero_run (binary search + scan), select_zero, SparseBuilder::{get_buckets, get_params (f64 width rule as the named parameter fw), new, multiset}, SparseVector::try_from(builder)",
  "C03": "SampleIndex::{div_round_up, parameters, range}, RLVector::{blocks, ones_after, decode, block_for, iter_for_block, run_iter} (decode loop and binary search included), SampleIndex::new, RunIter::{advance_if (arbitrary closure), next, rank_zero, offset_for, rank_at}, RLVector::{iter_for_bit, iter_for_one, iter_for_zero, get, rank, select, select_iter, zero_iter, select_zero, select_zero_iter, successor, iter, one_iter, count_zeros} (all loops included), impl From<RLBuilder> for RLVector (flush, the three indexes over samples.iter().map(..), compressed samples); RLVector::predecessor (closure lambda-lifted from the source, RunIter::advance_if once more with a state-passing closure)",
  "C04": "WMCore::{bit_value, map_down_one, map_down_zero, map_up_one, map_up_zero, map_down, map_down_with, map_down_with_two_positions, map_up_with} (level loops included), WMCore::from(Vec<u64>) (the macro_rules! body at u64) and WMCore::init_support, WaveletMatrix::from(Vec<u64>) and start_offsets (counting, both sorts, prefix sums, collect, pack), WaveletMatrix::{start, contains, rank, select, inverse_select, get}, ValueIter::next, the default VectorIndex::{predecessor, successor}",
- "C05": "RawVector::{bit, int, word, word_unchecked, set_unused_bits, set_bit, set_int, push_bit, push_int, pop_bit, pop_int, resize, count_ones}, IntVector::{new, with_len, with_capacity, get, set, push, pop, clear, pack}, RawVector::{new, with_len, with_capacity, complement, reserve}, IntVector::{resize, reserve}, Extend<u64> / From<Vec<u64>> / FromIterator<u64> for IntVector (the macro body at u64)",
+ "C05": "RawVector::{bit, int, word, word_unchecked, set_unused_bits, set_bit, set_int, push_bit, push_int, pop_bit, pop_int, resize, count_ones}, IntVector::{new, with_len, with_capacity, get, set, push, pop, clear, pack}, RawVector::{new, with_len, with_capacity, complement, reserve}, IntVector::{resize, reserve}, Extend<u64> / From<Vec<u64>> / FromIterator<u64> for IntVector (the macro body at u64); the u8 / u16 / u32 / usize instances of the From / FromIterator / Extend macro (Extend definitionally the u64 translation)",
  "C06": "the field order of serialize_header / serialize_body, the load order and the size_in_elements summands of all 14 `impl Serialize` blocks; the `load` functions of RawVector, IntVector, RankSupport, SelectSupport, BitVector, SparseVector, WaveletMatrix, RLVector, WMCore (reader threaded through — also through the level loop of WMCore —, every sanity check); the generic Option<V>::load at the instances BitVector::load uses, and BitVector::load / WaveletMatrix::load once more over the TRANSLATED inner loaders (nothing left to the model codecs)",
  "C08": "Identity / Complement ::{bit, word, word_unchecked, count_ones}",
  "C10": "the consumed plain one/zero iterator is the list of its items (any next/nth sequence, run with the translated methods); the five methods of ops::AccessIter and of bit_vector::Iter; OneIter<T>::{next, nth, next_back, size_hint} (word scans included); sparse_vector::{OneIter::{next, next_back, size_hint}, ZeroIter::{next_run, next, size_hint}, Iter::{next, next_back, size_hint}} and SparseVector::{one_iter, select_iter, zero_iter, select_zero_iter, iter}; rl_vector::{OneIter, ZeroIter, Iter}::{next, size_hint}",
